@@ -349,6 +349,29 @@ func runBehaviour(d *Daemon, b *Behaviour, prefix string, random bool, lenient b
 		pre = eff
 	}
 
+	// a second connection of the same client -- same address, same secret -- while the first one's answer is still valid: it
+	// is judged by the answer the auth server gives FOR IT (here: nothing is granted), not by what another connection got
+	twinQ := 0 // queries the second connection caused: not part of this connection's history
+	if sc != nil && authed && !random && b.Policy.EffTLS() == "no" && lastQ != nil && lastQ.ans.Kind == "ok" &&
+		len(lastQ.ans.Auths) > 0 && time.Since(lastQ.lo) < time.Duration(lastQ.ans.TTL)*time.Second-400*time.Millisecond {
+		nq0 := nqNow()
+		sc.Arm(len(b.Steps)+1, Answer{Kind: "ok", Auths: []Authz{}, TTL: 60})
+		if c2, err := Dial(d.TCP); err == nil {
+			c2.rw.Write(Encode(Cmd{Op: "IDENTIFY"}, "", "", ""))
+			if f := c2.ReadFrame(longWait); f.Kind == "response" {
+				c2.rw.Write(Encode(Cmd{Op: "AUTH"}, "", "", secret))
+				f = c2.ReadFrame(longWait)
+				if f.Kind == "response" && strings.HasPrefix(f.Data, "{") {
+					r.viol("OnlyIfGranted:twin", "policy %s: a second connection sent AUTH with the secret of a connection that had been granted %v %d ms earlier; the auth server's answer for the second connection grants nothing (%d new queries reached it), yet nsqd authorised it: %s",
+						b.Policy.Key(), lastQ.ans.Auths, time.Since(lastQ.lo).Milliseconds(), nqNow()-nq0, f.Data)
+				}
+			}
+			c2.Close()
+		}
+		sc.Arm(len(b.Steps)+2, noAns)
+		twinQ = nqNow() - nq0
+	}
+
 	// end of behaviour: flush the connection with a command whose refusal names it, so that every frame
 	// nsqd sent has been seen, in order
 	if conn != nil && !closed {
@@ -377,10 +400,10 @@ func runBehaviour(d *Daemon, b *Behaviour, prefix string, random bool, lenient b
 			return r
 		}
 		last := &r.Obs[len(r.Obs)-1]
-		if !eff.Equal(last.Eff) || nqNow() != last.Nq {
-			r.Void = fmt.Sprintf("registry or auth queries changed after the last answer: %v -> %v, queries %d -> %d", last.Eff, eff, last.Nq, nqNow())
+		if !eff.Equal(last.Eff) || nqNow()-twinQ != last.Nq {
+			r.Void = fmt.Sprintf("registry or auth queries changed after the last answer: %v -> %v, queries %d -> %d", last.Eff, eff, last.Nq, nqNow()-twinQ)
 			last.Eff = eff
-			last.Nq = nqNow()
+			last.Nq = nqNow() - twinQ
 			r.lateEffect = true
 		}
 	}
